@@ -52,7 +52,15 @@ Definition ext_lines (s : sdocument) (depth : nat) (vals : list value) (spec : b
                            "OBN " ++ n ++ " " ++ s_oname (opt_map td_name (object_type_by_name s n));
                            "TMAP " ++ n ++ " " ++ s_otd (type_map_get s n)]) names)
   (List.app
-    (if spec then [] else
+    (if spec then
+       (* specification: the FIRST directive definition carrying that name, types play no part *)
+       List.app (flat_map (fun x => match x with
+                                    | SDDirective dd => ["DBN " ++ dd_name dd ++ " " ++
+                                         match find (fun z => match z with SDDirective d2 => name_eqb (dd_name d2) (dd_name dd) | _ => false end) s with
+                                         | Some (SDDirective y) => s_nat (List.length (dd_args y)) | _ => "-" end]
+                                    | _ => [] end) s)
+                ["DBN zzAbsent -"]
+     else
        List.app (flat_map (fun x => match x with
                                     | SDDirective dd => ["DBN " ++ dd_name dd ++ " " ++
                                          match directive_by_name s (dd_name dd) with
